@@ -436,7 +436,9 @@ def finish(pid, tier, seed, t0, ob, summary, cases, failures, cfg, fatal=None, r
         unknown = []
         for i in oracle_fail:
             c = cases[i]
-            hit = next((f for f in findings if finding_matches(f, c)), None)
+            # verdict 3 = the oracle fails AND the faithful model does not reproduce what the
+            # implementation did: not the recorded defect as modelled, so never absorbed
+            hit = None if failures[i] >= 3 else next((f for f in findings if finding_matches(f, c)), None)
             if hit:
                 known_hit.setdefault(hit["id"], (hit, []))[1].append(i)
             else:
